@@ -47,7 +47,7 @@ ASSUMPTIONS = [
 ]
 REQUIRED = ["histories", "operations", "open_log_checks", "index_ops", "negative_index_ops",
             "slice_ops", "iterate_ops", "filter_ops", "out_of_range_ops", "chain_elements_checked",
-            "chain_negative_indices", "chain_empty_members", "populations_rows_checked",
+            "chain_negative_indices", "chain_empty_members", "populations_rows_checked", "populations_slices_checked",
             "to_population_checked", "map_checked", "map_verbose_checked", "large_populations",
             "transform_checked", "tap_load",
             "audit_file_opens"]
@@ -388,6 +388,25 @@ def check_populations(ctx, case, tmp):
         if [r[0] for r in rows_iter] != seen:
             return ctx.violation("populations-iteration", "iteration order differs from indexing",
                                  case)
+        # slices of the matched rows: one view per directory, list semantics (also reversed)
+        m = len(inter)
+        for _ in range(4):
+            a, b = (int(v) for v in rng.integers(-m - 2, m + 3, 2))
+            c = int(rng.choice([1, 1, 2, -1, -1, -2]))
+            sl = slice(a if rng.random() < .7 else None, b if rng.random() < .7 else None, c)
+            views = pops[sl]
+            want = seen[sl]
+            ctx.count("populations_slices_checked")
+            if len(views) != k or any(len(v) != len(want) for v in views):
+                return ctx.violation("populations-slice", f"pops[{sl}] gives views of lengths "
+                                                          f"{[len(v) for v in views]}, list "
+                                                          f"semantics give {len(want)} rows", case)
+            for j, v in enumerate(views):
+                for q, rel in enumerate(want):
+                    if not _is_tree_of(v[q], roots[j], rel, filesets[j]):
+                        return ctx.violation("populations-slice", f"pops[{sl}][{j}][{q}] is "
+                                                                  f"{v[q].source}, expected {rel}",
+                                             case)
         chained = pops.to_population()
         ctx.count("to_population_checked")
         N = k * len(inter)
